@@ -43,7 +43,8 @@ def gen(r, tier, i):
             ops.append({'form': 'loose', 'path': p, 'tag': 'l%d' % len(ops), 'state': r.random() < 0.5})
         else:
             ops.append({'form': 'rewire', 'path': p})
-    return {'k': r.randint(1, 3), 'nest': r.random() < 0.6, 'deriver': r.random() < 0.4,
+    # (k = 0 without nesting: a composite of steps only)
+    return {'k': r.randint(0, 3), 'nest': r.random() < 0.6, 'deriver': r.random() < 0.4,
             'path': [r.choice(['x', 'y', 'z']) for _ in range(r.randint(0, 3))],
             'ops': ops, 'init_n': r.randint(0, 9), 'host': r.choice(['empty', 'generated']),
             'override': {'target': r.choice(['p0', 's', 'sub.q', 'sub2.u', 'sub.h']), 'via': r.choice(['composer', 'process', 'merge', 'merge']),
@@ -319,10 +320,11 @@ def run(spec):
             raised = None
         except ValueError as ex:
             raised = ex
-        if spec['meta_overlap']:
+        if spec['meta_overlap'] and spec['k'] >= 1:
             V.check('metacomposer_overlap', raised is not None, 'MetaComposer accepted composers with overlapping keys')
         else:
-            V.check('metacomposer_overlap', raised is None and set(mres['processes']) == set(root['processes']) | {'other'},
+            V.check('metacomposer_overlap', raised is None and set(mres['processes']) == set(root['processes']) | {
+                'p0' if spec['meta_overlap'] else 'other'},
                     lambda: ('MetaComposer of disjoint composers is not their union', repr(raised)))
     except Exception as ex:
         import traceback
